@@ -17,6 +17,7 @@ import ast
 from ..cfg import CFG, Node
 from ..core import AnchorError, Func, U, own_nodes
 from ..ctx import Ctx
+from ..dataflow import Problem, solve
 from ..reach import Reaching
 from ..report import RuleResult, alpha
 from ..tokens import option_read_key
@@ -363,10 +364,15 @@ def rule_typo(c: Ctx) -> RuleResult:
               "replaceAt does not return prefix + replacement + the text after exactly ONE character: with a quote string of length != 1 "
               "neighbouring characters are swallowed or duplicated")
     # replaceAt call sites
-    pi = c.p.func("rules_core/smartquotes.py:process_inlines")
-    rd = Reaching(c.cfg(pi))
+    pi0 = c.p.func("rules_core/smartquotes.py:process_inlines")
     ncalls = 0
-    for cs in c.cg.sites.get(pi, []):
+    sq_sites = [(g, cs) for g in sorted(c.p.funcs.values(), key=lambda x: x.qual) if g.module is pi0.module
+                for cs in c.cg.sites.get(g, []) if ra in cs.callees]
+    rd_of: dict = {}
+    for pi, cs in sq_sites:
+        if pi not in rd_of:
+            rd_of[pi] = Reaching(c.cfg(pi))
+        rd = rd_of[pi]
         if ra not in cs.callees:
             continue
         ncalls += 1
@@ -416,8 +422,141 @@ def rule_typo(c: Ctx) -> RuleResult:
             if len(cnt) == 1:
                 r.add(f"{f.short}|matchpos|{mv}", c.where(f, uses[0][0]), f.short, f"{mv}.start() / end()", "discharged",
                       f"all {len(uses)} positions taken from the match are translated alike ({sorted(major) or 'no offset'})")
+    # ---- a position found in a snapshot of the text is applied to the text only while the snapshot is current
+    _sync_obligations(c, r, funcs, ra)
     r.floor = 12
     return r
+
+
+class _Sync(Problem):
+    """Pairs (a, b) of access-path texts such that positions in a are positions in b: generated by `a = b`, killed by a store
+    to a or b (or to a prefix, or to the same attribute of any other object - it may be the same object) unless the store is
+    `S = replaceAt(S, i, X)` with X a constant of length 1, which keeps every position where it is."""
+
+    def __init__(self, keeps_length=None) -> None:
+        self.keeps_length = keeps_length or (lambda stmt: False)
+
+    def entry_state(self):
+        return frozenset()
+
+    def join(self, a, b, at):
+        return a & b
+
+    def edge(self, n: Node, state, label: str, succ: Node):
+        st = set(state)
+        a = n.ast
+        if a is None or n.kind != "stmt" or label == "exc":
+            if n.kind == "for" and label == "iter" and a is not None:
+                names = {x.id for x in ast.walk(a.target) if isinstance(x, ast.Name)}
+                st = {p for p in st if not (_roots(p[0]) | _roots(p[1])) & names}
+            return frozenset(st)
+        tg: list[ast.AST] = []
+        val = None
+        if isinstance(a, ast.Assign):
+            tg, val = list(a.targets), a.value
+        elif isinstance(a, (ast.AugAssign, ast.AnnAssign)):
+            tg, val = [a.target], getattr(a, "value", None)
+        if self.keeps_length(a):
+            return frozenset(st)
+        for t in tg:
+            for e in (t.elts if isinstance(t, (ast.Tuple, ast.List)) else [t]):
+                txt = U(e)
+                st = {p for p in st if not any(q == txt or q.startswith(txt + ".") or q.startswith(txt + "[") or
+                                               (isinstance(e, ast.Name) and e.id in _roots(q)) or
+                                               (isinstance(e, ast.Attribute) and q.endswith("." + e.attr)) for q in p)}
+        if isinstance(a, ast.Assign) and len(a.targets) == 1 and isinstance(a.targets[0], (ast.Name, ast.Attribute)) \
+                and isinstance(val, (ast.Name, ast.Attribute)):
+            st.add((U(a.targets[0]), U(val)))
+        return frozenset(st)
+
+
+def _roots(txt: str) -> set[str]:
+    try:
+        return {x.id for x in ast.walk(ast.parse(txt, mode="eval")) if isinstance(x, ast.Name)}
+    except SyntaxError:
+        return set()
+
+
+def _sync_obligations(c: Ctx, r: RuleResult, funcs: list[Func], ra: Func) -> None:
+    for f in sorted(funcs, key=lambda x: x.qual):
+        calls = [cs for cs in c.cg.sites.get(f, []) if ra in cs.callees and len(cs.node.args) >= 2]
+        if not calls:
+            continue
+        # match variables: m = RE.search(T[...]) / for m in RE.finditer(T)
+        searched: dict[str, set[str]] = {}
+        for n in own_nodes(f.node):
+            tgt = src = None
+            if isinstance(n, ast.Assign) and len(n.targets) == 1 and isinstance(n.targets[0], ast.Name) and isinstance(n.value, ast.Call):
+                tgt, src = n.targets[0].id, n.value
+            elif isinstance(n, ast.For) and isinstance(n.target, ast.Name) and isinstance(n.iter, ast.Call):
+                tgt, src = n.target.id, n.iter
+            if tgt is None or not (isinstance(src.func, ast.Attribute) and src.func.attr in ("search", "match", "fullmatch", "finditer") and src.args):
+                continue
+            e = src.args[-1] if U(src.func.value) == "re" and len(src.args) > 1 else src.args[0]
+            while isinstance(e, ast.Subscript):
+                e = e.value
+            if isinstance(e, (ast.Name, ast.Attribute)):
+                searched.setdefault(tgt, set()).add(U(e))
+        if not searched:
+            continue
+        cfg = c.cfg(f)
+        def keeps_length(stmt: ast.AST, f=f) -> bool:
+            if not (isinstance(stmt, ast.Assign) and len(stmt.targets) == 1 and isinstance(stmt.value, ast.Call)):
+                return False
+            cs_ = c.cg.site_of.get(stmt.value)
+            if cs_ is None or ra not in cs_.callees or len(cs_.callees) != 1 or len(stmt.value.args) < 3:
+                return False
+            if U(stmt.value.args[0]) != U(stmt.targets[0]):
+                return False
+            rep = stmt.value.args[2]
+            if isinstance(rep, ast.Constant):
+                return isinstance(rep.value, str) and len(rep.value) == 1
+            if isinstance(rep, ast.Name) and not c.tf.scope(f).is_local(rep.id):
+                try:
+                    v = c.p.const_value(f.module, rep.id)
+                except Exception:          # noqa: BLE001
+                    return False
+                return isinstance(v, str) and len(v) == 1
+            return False
+        res = solve(cfg, _Sync(keeps_length), widen_after=10**9)
+        rd = Reaching(cfg)
+        for cs in calls:
+            call = cs.node
+            S, idx = call.args[0], call.args[1]
+            ms = set()
+            todo = [idx]
+            seen_n: set[str] = set()
+            while todo:
+                e = todo.pop()
+                for x in ast.walk(e):
+                    if isinstance(x, ast.Call) and isinstance(x.func, ast.Attribute) and x.func.attr in ("start", "end", "span") \
+                            and isinstance(x.func.value, ast.Name) and x.func.value.id in searched:
+                        ms.add(x.func.value.id)
+                    elif isinstance(x, ast.Name) and x.id not in seen_n and x.id not in searched:
+                        seen_n.add(x.id)
+                        for d in rd.at_ast(call, x.id):
+                            if d.kind == "assign" and d.value is not None:
+                                todo.append(d.value)
+            if not ms:
+                continue
+            for mv in sorted(ms):
+                for T in sorted(searched[mv]):
+                    key = f"{f.short}|sync|{alpha(f, call)[:50]}|{mv}"
+                    if T == U(S):
+                        r.add(key, c.where(f, call), f.short, U(call)[:70], "discharged", f"the position is applied to the string it was found in (`{T}`)")
+                        continue
+                    ok = True
+                    for nd in cfg.owner(call):
+                        st = res.get(nd.id)
+                        if st is None:
+                            continue
+                        if (T, U(S)) not in st and (U(S), T) not in st:
+                            ok = False
+                    r.add(key, c.where(f, call), f.short, U(call)[:70], "discharged" if ok else "violation",
+                          f"`{T}` (searched) is a current copy of `{U(S)}` on every path to this replacement" if ok else
+                          f"the position comes from a match in `{T}`, a snapshot of `{U(S)}` that is not refreshed on every path after `{U(S)}` "
+                          f"was rewritten: once a replacement changes the length of the text (quote strings are configurable), later "
+                          f"positions are stale and other characters are overwritten")
 
 
 def _yield_guards(c: Ctx, f: Func, recv: ast.AST) -> list[tuple[Func, ast.AST, object]] | None:
@@ -443,7 +582,7 @@ def _yield_guards(c: Ctx, f: Func, recv: ast.AST) -> list[tuple[Func, ast.AST, o
     return None
 
 
-def _text_guard(c: Ctx, f: Func, n: ast.AST, recv: ast.AST, cfg: CFG, res: dict) -> tuple[bool, str]:
+def _text_guard(c: Ctx, f: Func, n: ast.AST, recv: ast.AST, cfg: CFG, res: dict, _depth: int = 0) -> tuple[bool, str]:
     rt = U(recv)
     yg = _yield_guards(c, f, recv)
     if yg:
@@ -484,6 +623,22 @@ def _text_guard(c: Ctx, f: Func, n: ast.AST, recv: ast.AST, cfg: CFG, res: dict)
                 ok = False
         if ok:
             return True, "stack entries are recorded only for the current token under its type == 'text' guard"
+    # the token is a parameter of a helper: the guard is the caller's (every call site passes a token it has tested)
+    if isinstance(recv, ast.Name) and recv.id in [a.arg for a in f.node.args.args + f.node.args.kwonlyargs] and _depth < 3:
+        sites = c.cg.callers.get(f, [])
+        if sites and all(cs.kind in ("direct", "method") for cs in sites):
+            whys = []
+            for cs in sites:
+                a = c.eff.arg_for_param(cs, f, recv.id)
+                if a is None:
+                    break
+                ccfg, cres = c.facts(cs.caller)
+                ok_, why_ = _text_guard(c, cs.caller, cs.node, a, ccfg, cres, _depth + 1)
+                if not ok_:
+                    return False, f"helper {f.short} is called from {cs.caller.short} with a token that is not guarded: {why_}"
+                whys.append(why_)
+            else:
+                return True, f"parameter `{rt}`: at every call site the token passed is guarded ({whys[0]})"
     return False, f"the store to `{rt}.content` is not dominated by `{rt}.type == 'text'`"
 
 
